@@ -22,11 +22,13 @@ VARIABLES sc,      \* index of the scenario being executed
 vars == <<sc, done, phase, out>>
 
 Steps(s) == Scenarios[s].steps
-NoOut == [opened |-> FALSE, head_on_chain |-> FALSE, valid |-> FALSE, converged |-> FALSE]
+NoOut == [opened |-> FALSE, head_on_chain |-> FALSE, valid |-> FALSE, input_converged |-> FALSE, converged |-> FALSE]
 
 \* what the property allows after a crash
 RecoverOK(o) == o.opened /\ o.head_on_chain /\ o.valid
-RedeliverOK(o) == o.converged
+\* re-delivering the interrupted input alone converges (input_converged), and so does re-delivering
+\* everything above the recovered head followed by the input (converged)
+RedeliverOK(o) == o.input_converged /\ o.converged
 
 Init == /\ sc \in 1..Len(Scenarios) /\ done = 0 /\ phase = "run" /\ out = NoOut
 
@@ -40,11 +42,11 @@ Recover(o) == /\ phase \in {"crashed", "complete"}
               /\ RecoverOK(o)
               /\ out' = o /\ phase' = "recovered" /\ UNCHANGED <<sc, done>>
 Redeliver == /\ phase = "recovered"
-             /\ out' = [out EXCEPT !.converged = TRUE]
+             /\ out' = [out EXCEPT !.converged = TRUE, !.input_converged = TRUE]
              /\ phase' = "redelivered" /\ UNCHANGED <<sc, done>>
 
 Next == Step \/ Complete \/ Crash \/ Redeliver
-        \/ \E o \in [opened : BOOLEAN, head_on_chain : BOOLEAN, valid : BOOLEAN, converged : {FALSE}] : Recover(o)
+        \/ \E o \in [opened : BOOLEAN, head_on_chain : BOOLEAN, valid : BOOLEAN, input_converged : {FALSE}, converged : {FALSE}] : Recover(o)
 Spec == Init /\ [][Next]_vars
 
 -----------------------------------------------------------------------------
